@@ -73,6 +73,15 @@ type funcSpec struct {
 	expose []string
 	// params: further leading parameters of the translated definition, as Lean binder text (for fuel expressions over abstract state)
 	params []string
+	// startAt: the translation BEGINS at the first top-level statement whose source text starts with this (what comes before —
+	// opening a file, say — is outside the fragment); startVars are the locals declared before it that the fragment uses:
+	// they become parameters
+	startAt   string
+	startVars []string
+	// logs: module functions that only print (a warning on the terminal): with `tape`, a call appends to the explicit state:
+	// `tape__ ← f tape__ k ints` for the k-th such call site of the function (listed in its doc comment) and the integer
+	// arguments of the call
+	logs []string
 }
 
 // The functions translated. Order matters only for readability: dependencies are emitted first automatically.
@@ -179,6 +188,10 @@ var funcSpecs = []funcSpec{
 	{rel: "", name: "GenerateX25519Identity", abstract: []string{"curve25519.X25519"}, opaque: map[string]string{"tapeτ": "τ"}, tape: true},
 	{rel: "plugin", name: "writeStanza", abstract: marshalAbstract, opaque: marshalOpaque, threaded: marshalThreaded},
 	{rel: "plugin", name: "writeStanzaWithBody", abstract: marshalAbstract, opaque: marshalOpaque, threaded: marshalThreaded},
+	{rel: "cmd/age", name: "parseIdentities", abstract: []string{"main.parseIdentity"}, opaque: cliOpaque, errInts: true},
+	{rel: "cmd/age", name: "parseRecipientsFile", abstract: []string{"main.parseRecipient", "main.sshKeyType", "ssh.ParseAuthorizedKey"},
+		opaque: map[string]string{"age.Recipient": "ρ", "os.File": "(List UInt8)", "ssh.PublicKey": "π", "tapeτ": "τ"}, errInts: true, tape: true, logs: []string{"main.warningf"},
+		startAt: "const recipientFileSizeLimit", startVars: []string{"f"}},
 	{rel: "", name: "aeadEncrypt", abstract: []string{"chacha20poly1305.New"}, opaque: map[string]string{"cipher.AEAD": "α"}},
 	{rel: "", name: "aeadDecrypt", abstract: []string{"chacha20poly1305.New"}, opaque: map[string]string{"cipher.AEAD": "α"}},
 	{rel: "agessh", name: "aeadEncrypt", abstract: []string{"chacha20poly1305.New"}, opaque: map[string]string{"cipher.AEAD": "α"}},
@@ -289,6 +302,7 @@ type fctx struct {
 	curInd       int
 	deferred     []ast.Stmt // bodies of `defer func() { … }()` statements passed so far (function level only)
 	tapeVar      *types.Var // the explicit crypto/rand state (funcSpec.tape)
+	logN         int        // log sites passed so far (funcSpec.logs)
 	stopped      bool       // funcSpec.stopAt was reached: the remaining statements are not translated
 	// closures: `x := func(…) … { … }` at function level whose only captured variable is the receiver: translated as
 	// one more method of the receiver's type (the receiver handed back), `x(…)` as a call of that method
@@ -2284,6 +2298,19 @@ func isBufioReader(t types.Type) bool {
 	return ok && nt.Obj().Pkg() != nil && nt.Obj().Pkg().Path() == "bufio" && nt.Obj().Name() == "Reader"
 }
 
+// isLog: f is listed in funcSpec.logs
+func (c *fctx) isLog(f *types.Func) bool {
+	if f == nil || f.Pkg() == nil || c.spec == nil {
+		return false
+	}
+	for _, x := range c.spec.logs {
+		if x == f.Pkg().Name()+"."+f.Name() {
+			return true
+		}
+	}
+	return false
+}
+
 // usedIn collects local variables (of this function) referenced inside n.
 // threadedVars: the state variables a call takes and hands back (funcSpec.tape / threaded / δ.Write)
 func (c *fctx) threadedVars(call *ast.CallExpr) []*types.Var {
@@ -2296,6 +2323,9 @@ func (c *fctx) threadedVars(call *ast.CallExpr) []*types.Var {
 		out = append(out, c.tapeVar)
 	}
 	if c.tapeVar != nil && f.Pkg().Path() == "crypto/rsa" && f.Name() == "EncryptOAEP" {
+		out = append(out, c.tapeVar)
+	}
+	if c.tapeVar != nil && c.isLog(f) {
 		out = append(out, c.tapeVar)
 	}
 	if c.tapeVar != nil && f != c.fi.Obj && !c.isAbstract(f) {
@@ -2724,6 +2754,31 @@ func (c *fctx) stmt(e *emitter, ind int, s ast.Stmt) {
 					return
 				}
 			}
+		}
+		if f, ok := c.fi.Pkg.callee(call).(*types.Func); ok && c.isLog(f) {
+			if c.tapeVar == nil {
+				c.fail(s, "funcSpec.logs needs funcSpec.tape")
+			}
+			var ints []string
+			for _, a := range call.Args {
+				if bt, ok := c.typeOf(a).Underlying().(*types.Basic); ok && bt.Info()&types.IsInteger != 0 {
+					ints = append(ints, c.expr(a))
+				} else if c.partial(a) {
+					e.add(ind, "let _ := "+c.expr(a))
+				}
+			}
+			k := c.logN
+			c.logN++
+			msg := ""
+			if len(call.Args) > 0 {
+				msg, _ = c.fi.Pkg.constString(call.Args[0])
+			}
+			c.sites = append(c.sites, fmt.Sprintf("log site %d (line %d): %s(%q, …)", k, c.t.pr.line(call.Pos()), f.Name(), msg))
+			an := absName(f)
+			c.useAbstractName(an, fmt.Sprintf("(%s : τ → Nat → (List Int) → Go.M τ)", an))
+			tp := c.nameOf(c.tapeVar)
+			e.add(ind, fmt.Sprintf("%s ← %s %s %d [%s]", tp, an, tp, k, strings.Join(ints, ", ")))
+			return
 		}
 		if b, ok := c.fi.Pkg.callee(call).(*types.Builtin); ok && b.Name() == "panic" {
 			k := c.panicN
@@ -3607,6 +3662,23 @@ func (t *ftr) translate(fi *FuncInfo, from *fctx, at ast.Node) string {
 		}
 		_ = i
 	}
+	if spec != nil {
+		for _, sv := range spec.startVars {
+			var v *types.Var
+			ast.Inspect(fi.Decl.Body, func(n ast.Node) bool {
+				if id, ok := n.(*ast.Ident); ok && id.Name == sv && v == nil {
+					if d, ok := c.info().Defs[id].(*types.Var); ok {
+						v = d
+					}
+				}
+				return v == nil
+			})
+			if v == nil {
+				c.fail(fi.Decl, "startVars: %s is not declared in the function", sv)
+			}
+			params = append(params, fmt.Sprintf("(%s : %s)", c.nameOf(v), c.leanType(fi.Decl, v.Type())))
+		}
+	}
 	if c.tapeVar != nil {
 		params = append(params, fmt.Sprintf("(%s : τ)", c.nameOf(c.tapeVar)))
 		shadow = append(shadow, fmt.Sprintf("let mut %s := %s", c.nameOf(c.tapeVar), c.nameOf(c.tapeVar)))
@@ -3650,11 +3722,22 @@ func (t *ftr) translate(fi *FuncInfo, from *fctx, at ast.Node) string {
 	for _, l := range shadow {
 		e.add(1, l)
 	}
+	started := spec == nil || spec.startAt == ""
 	for _, s := range fi.Decl.Body.List {
 		if c.stopped {
 			break
 		}
+		if !started {
+			if !strings.HasPrefix(t.pr.text(fi.Pkg, s), spec.startAt) {
+				continue
+			}
+			started = true
+			c.sites = append(c.sites, fmt.Sprintf("the statements before line %d are outside the translated fragment (funcSpec.startAt); %s: parameters", t.pr.line(s.Pos()), strings.Join(spec.startVars, ", ")))
+		}
 		c.stmt(e, 1, s)
+	}
+	if !started {
+		c.fail(fi.Decl, "funcSpec.startAt matches no top-level statement")
 	}
 	// falling off the end of a function without results: the deferred calls run, then it returns
 	if sig.Results().Len() == 0 {
